@@ -138,7 +138,7 @@ func (rr *rulesRunner) nodeString(n ast.Node) string {
 }
 
 func (rr *rulesRunner) nodeText(n ast.Node) []byte {
-	if gogrep.IsEmptyNodeSlice(n) {
+	if isAbsentNode(n) {
 		return nil
 	}
 
@@ -392,7 +392,11 @@ func (rr *rulesRunner) handleMatch(rule goRule, m gogrep.MatchData) bool {
 
 	node := m.Node
 	if rule.location != "" {
-		node, _ = m.CapturedByName(rule.location)
+		// A capture that matched nothing has no position to report at;
+		// the match itself is reported then.
+		if loc, _ := m.CapturedByName(rule.location); !isAbsentNode(loc) {
+			node = loc
+		}
 	}
 
 	var messageText string
